@@ -265,3 +265,229 @@ func VF_Repo_CollectionNumbers() {
 	}
 	vf.Reach("created")
 }
+
+// ---- differential harness -----------------------------------------------------
+
+func eqClient(a, b *schema.ClientDoc) bool {
+	if a == nil || b == nil {
+		return a == nil && b == nil
+	}
+	return a.CUID == b.CUID && a.Alias == b.Alias && a.CollectionNum == b.CollectionNum && a.Type == b.Type && a.SyncType == b.SyncType
+}
+
+func eqCollection(a, b *schema.CollectionDoc) bool {
+	if a == nil || b == nil {
+		return a == nil && b == nil
+	}
+	return a.Name == b.Name && a.Num == b.Num
+}
+
+func eqSubs(a, b map[string]*schema.SubscribedClientDoc) bool {
+	if len(a) != len(b) {
+		return false
+	}
+	for k, x := range a {
+		y, ok := b[k]
+		if !ok || (x == nil) != (y == nil) {
+			return false
+		}
+		if x == nil {
+			continue
+		}
+		if (x.CP == nil) != (y.CP == nil) || x.Type != y.Type {
+			return false
+		}
+		if x.CP != nil && !vf.All(x.CP.Sseq == y.CP.Sseq, x.CP.Cseq == y.CP.Cseq) {
+			return false
+		}
+	}
+	return true
+}
+
+func eqDatatype(a, b *schema.DatatypeDoc) bool {
+	if a == nil || b == nil {
+		return a == nil && b == nil
+	}
+	return a.DUID == b.DUID && a.Key == b.Key && a.CollectionNum == b.CollectionNum && a.Type == b.Type && a.Visible == b.Visible &&
+		vf.All(a.Sseq.Begin == b.Sseq.Begin, a.Sseq.End == b.Sseq.End, a.Sseq.Safe == b.Sseq.Safe) &&
+		eqSubs(a.RWClients, b.RWClients) && eqSubs(a.ROClients, b.ROClients)
+}
+
+func eqOps(a model.OpList, sa []uint64, b model.OpList, sb []uint64) bool {
+	if len(a) != len(b) || len(sa) != len(sb) {
+		return false
+	}
+	for i := range a {
+		x, y := a[i], b[i]
+		if !vf.All(sa[i] == sb[i], x.ID.Lamport == y.ID.Lamport, x.ID.Seq == y.ID.Seq, x.ID.Era == y.ID.Era) ||
+			x.OpType != y.OpType || x.ID.CUID != y.ID.CUID || string(x.Body) != string(y.Body) {
+			return false
+		}
+	}
+	return true
+}
+
+func eqSnapshot(a, b *schema.SnapshotDoc) bool {
+	if a == nil || b == nil {
+		return a == nil && b == nil
+	}
+	return a.CollectionNum == b.CollectionNum && a.DUID == b.DUID && a.Sseq == b.Sseq && a.Meta == b.Meta && string(a.Snapshot) == string(b.Snapshot)
+}
+
+// repoStep applies one call, chosen by the engine, to both repositories and compares what they answer.
+func repoStep(tag string, r, f repoAPI, sseq func(string) uint64) {
+	ctx := vfCtx()
+	cuids := []string{"X", "Y"}
+	names := []string{"colA", "colB"}
+	duids := []string{"D1", "D2"}
+	keys := []string{"k1", "k2"}
+	call := vf.Choice(tag+".call", 16)
+	vf.Tag(tag, call)
+	same := func(e1, e2 errors.OrdaError) {
+		vf.Assert((e1 == nil) == (e2 == nil), "repository and stand-in agree on success / failure")
+	}
+	switch call {
+	case 0:
+		c := &schema.ClientDoc{CUID: cuids[vf.Choice(tag+".cuid", 2)], Alias: "al", CollectionNum: int32(1 + vf.Choice(tag+".col", 2)), Type: 1, SyncType: 2}
+		c2 := *c
+		same(r.UpdateClient(ctx, c), f.UpdateClient(ctx, &c2))
+	case 1:
+		cuid := cuids[vf.Choice(tag+".cuid", 2)]
+		a, e1 := r.GetClient(ctx, cuid)
+		b, e2 := f.GetClient(ctx, cuid)
+		same(e1, e2)
+		vf.Assert(eqClient(a, b), "GetClient agrees")
+	case 2:
+		cuid := cuids[vf.Choice(tag+".cuid", 2)]
+		same(r.DeleteClient(ctx, cuid), f.DeleteClient(ctx, cuid))
+	case 3:
+		name := names[vf.Choice(tag+".name", 2)]
+		a, e1 := r.InsertCollection(ctx, name)
+		b, e2 := f.InsertCollection(ctx, name)
+		same(e1, e2)
+		vf.Assert(e1 != nil || eqCollection(a, b), "InsertCollection agrees")
+	case 4:
+		name := names[vf.Choice(tag+".name", 2)]
+		a, e1 := r.GetCollection(ctx, name)
+		b, e2 := f.GetCollection(ctx, name)
+		same(e1, e2)
+		vf.Assert(eqCollection(a, b), "GetCollection agrees")
+	case 5:
+		i := vf.Choice(tag+".duid", 2)
+		d1 := vfDatatypeDoc(duids[i], keys[vf.Choice(tag+".key", 2)], int32(1+vf.Choice(tag+".col", 2)), sseq(tag+".end"), "X", sseq(tag+".cps"), sseq(tag+".cpc"))
+		d2 := vfDatatypeDoc(d1.DUID, d1.Key, d1.CollectionNum, d1.Sseq.End, "X", d1.RWClients["X"].CP.Sseq, d1.RWClients["X"].CP.Cseq)
+		same(r.UpdateDatatype(ctx, d1), f.UpdateDatatype(ctx, d2))
+	case 6:
+		duid := duids[vf.Choice(tag+".duid", 2)]
+		a, e1 := r.GetDatatype(ctx, duid)
+		b, e2 := f.GetDatatype(ctx, duid)
+		same(e1, e2)
+		vf.Assert(eqDatatype(a, b), "GetDatatype agrees")
+	case 7:
+		col, key := int32(1+vf.Choice(tag+".col", 2)), keys[vf.Choice(tag+".key", 2)]
+		a, e1 := r.GetDatatypeByKey(ctx, col, key)
+		b, e2 := f.GetDatatypeByKey(ctx, col, key)
+		same(e1, e2)
+		vf.Assert(eqDatatype(a, b), "GetDatatypeByKey agrees")
+	case 8:
+		duid := duids[vf.Choice(tag+".duid", 2)]
+		n := 1 + vf.Choice(tag+".n", 2)
+		var o1, o2 []interface{}
+		for i := 0; i < n; i++ {
+			s := sseq(tag + ".s" + string(rune('0'+i)))
+			o1 = append(o1, vfOpDoc(duid, s, 1, "X", s))
+			o2 = append(o2, vfOpDoc(duid, s, 1, "X", s))
+		}
+		same(r.InsertOperations(ctx, o1), f.InsertOperations(ctx, o2))
+	case 9:
+		duid := duids[vf.Choice(tag+".duid", 2)]
+		from := sseq(tag + ".from")
+		a, sa, e1 := r.GetOperations(ctx, duid, from, constants.InfinitySseq)
+		b, sb, e2 := f.GetOperations(ctx, duid, from, constants.InfinitySseq)
+		same(e1, e2)
+		vf.Assert(eqOps(a, sa, b, sb), "GetOperations agrees")
+	case 10:
+		col, duid := int32(1+vf.Choice(tag+".col", 2)), duids[vf.Choice(tag+".duid", 2)]
+		same(r.PurgeOperations(ctx, col, duid), f.PurgeOperations(ctx, col, duid))
+	case 11:
+		col, duid := int32(1+vf.Choice(tag+".col", 2)), duids[vf.Choice(tag+".duid", 2)]
+		s := sseq(tag + ".snap")
+		same(r.InsertSnapshot(ctx, col, duid, s, []byte("meta"), []byte(`{"v":1}`)), f.InsertSnapshot(ctx, col, duid, s, []byte("meta"), []byte(`{"v":1}`)))
+	case 12:
+		col, duid := int32(1+vf.Choice(tag+".col", 2)), duids[vf.Choice(tag+".duid", 2)]
+		a, e1 := r.GetLatestSnapshot(ctx, col, duid)
+		b, e2 := f.GetLatestSnapshot(ctx, col, duid)
+		same(e1, e2)
+		vf.Assert(eqSnapshot(a, b), "GetLatestSnapshot agrees")
+	case 13:
+		col, key := int32(1+vf.Choice(tag+".col", 2)), keys[vf.Choice(tag+".key", 2)]
+		same(r.PurgeDatatype(ctx, col, key), f.PurgeDatatype(ctx, col, key))
+	case 14:
+		name := names[vf.Choice(tag+".name", 2)]
+		same(r.PurgeAllDocumentsOfCollection(ctx, name), f.PurgeAllDocumentsOfCollection(ctx, name))
+	case 15:
+		a, e1 := r.GetNextCollectionNum(ctx)
+		b, e2 := f.GetNextCollectionNum(ctx)
+		same(e1, e2)
+		vf.Assert(a == b, "GetNextCollectionNum agrees")
+	}
+}
+
+// repoObserve compares everything readable through the API.
+func repoObserve(r, f repoAPI) {
+	ctx := vfCtx()
+	for _, cuid := range []string{"X", "Y"} {
+		a, _ := r.GetClient(ctx, cuid)
+		b, _ := f.GetClient(ctx, cuid)
+		vf.Assert(eqClient(a, b), "final: clients agree")
+	}
+	for _, name := range []string{"colA", "colB"} {
+		a, _ := r.GetCollection(ctx, name)
+		b, _ := f.GetCollection(ctx, name)
+		vf.Assert(eqCollection(a, b), "final: collections agree")
+	}
+	for _, duid := range []string{"D1", "D2"} {
+		a, _ := r.GetDatatype(ctx, duid)
+		b, _ := f.GetDatatype(ctx, duid)
+		vf.Assert(eqDatatype(a, b), "final: datatypes agree")
+		oa, sa, _ := r.GetOperations(ctx, duid, 0, constants.InfinitySseq)
+		ob, sb, _ := f.GetOperations(ctx, duid, 0, constants.InfinitySseq)
+		vf.Assert(eqOps(oa, sa, ob, sb), "final: logs agree")
+		for col := int32(1); col <= 2; col++ {
+			x, _ := r.GetLatestSnapshot(ctx, col, duid)
+			y, _ := f.GetLatestSnapshot(ctx, col, duid)
+			vf.Assert(eqSnapshot(x, y), "final: latest snapshots agree")
+		}
+	}
+}
+
+// VF_Repo_Equiv: from a populated state, every script of calls with arguments
+// from small sets is answered alike by the real repository (on the driver
+// model) and by the stand-in that the service-level harnesses run on.
+func VF_Repo_Equiv() {
+	r, f := repoAPI(VFNewRealRepository()), repoAPI(vffake.NewInMemory())
+	ctx := vfCtx()
+	small := func(tag string) uint64 {
+		v := vf.U64(tag)
+		vf.Assume(v < 1<<40)
+		return v
+	}
+	if vf.Choice("populated", 2) == 1 {
+		for _, x := range []repoAPI{r, f} {
+			_, _ = x.InsertCollection(ctx, "colA")
+			_ = x.UpdateClient(ctx, &schema.ClientDoc{CUID: "X", Alias: "al", CollectionNum: 1, Type: 1, SyncType: 2})
+			_ = x.UpdateDatatype(ctx, vfDatatypeDoc("D1", "k1", 1, 2, "X", 2, 2))
+			_ = x.InsertOperations(ctx, []interface{}{vfOpDoc("D1", 1, 1, "X", 1), vfOpDoc("D1", 2, 1, "X", 2)})
+			_ = x.InsertSnapshot(ctx, 1, "D1", 1, []byte("meta"), []byte(`{"v":1}`))
+		}
+	}
+	steps := 2
+	if vf.Tier() == 1 {
+		steps = 3
+	}
+	for i := 0; i < steps; i++ {
+		repoStep("s"+string(rune('0'+i)), r, f, small)
+	}
+	vf.Reach("scripted")
+	repoObserve(r, f)
+}
